@@ -326,7 +326,8 @@ def check_p4(rep, idx, rule_id="P4", first_order_only=False):
         if len(sites) != 1:
             rep.broke(rule_id + ": expected one first-order step computation, found %d" % len(sites))
             return
-    for var, base, ifs, decl in sites:
+    for site_no, (var, base, ifs, decl) in enumerate(sites):
+        site_name = "first-order step" if first_order_only else "step computation %d" % (site_no + 1)
         body = A.kids(ifs)[1]
         coord = None
         for y in A.walk(body):
@@ -413,9 +414,9 @@ def check_p4(rep, idx, rule_id="P4", first_order_only=False):
         except Stop as ex_:
             rep.broke(rule_id + ": cannot execute the step computation at %s:%s: %s" % (fe.rel(f), l, ex_))
             continue
-        rep.instance(rule_id, "dr_numerical", "step %s @%s" % (var, l), ok=bad is None, sample={"file": fe.rel(f), "line": l})
+        rep.instance(rule_id, "dr_numerical", site_name, ok=bad is None, sample={"file": fe.rel(f), "line": l, "variable": var})
         if bad:
-            rep.violation(Finding(rule_id, "dr_numerical", "step %s" % var,
+            rep.violation(Finding(rule_id, "dr_numerical", site_name,
                                   "for a vector coordinate of magnitude %s the finite-difference step is %s * %s: below the rounding unit of O(1) function "
                                   "values, so the difference quotient is exactly 0 (only a coordinate that is exactly 0 falls back to the default step)"
                                   % (float(bad[0]), float(bad[1]), base), f, l))
